@@ -268,6 +268,18 @@ Definition overlap_sched (a b c : nat) : list label :=
   repeat (Step a) serve_pc ++ [Step b; Step b] ++ [Term a] ++ repeat (Step a) (length shutdown)
   ++ repeat (Step b) (serve_pc - 2) ++ repeat (Step c) serve_pc.
 
+(* finding F-C15-pidfile-late-unlink: A serves and is told to stop; it runs sock_destroy to the end (unlink socket,
+   close, unlink lock file, close lock descriptor = lock released) and is then slow (timer_fini .. random_fini); B
+   starts without --force: new lock file, lock, bind, unlinks A's pid file, writes its own, serves; A finishes:
+   writes the seed and — destroy_conf (conf, 1), the very last thing — unlinks the pid file by name: B's. *)
+Definition late_unlink_sched (a b : nat) : list label :=
+  repeat (Step a) serve_pc ++ [Term a] ++ repeat (Step a) 4
+  ++ repeat (Step b) serve_pc ++ repeat (Step a) (length shutdown - 4).
+
+(* p has written its pid file and it is still there, naming p *)
+Definition has_pidfile (s : state) (p : nat) : bool :=
+  match names s NPid with Some f => opt_is (content s f) p | None => false end.
+
 (* printable observation of one process and of the names, for the oracle *)
 Definition status_code (x : status) : nat :=
   match x with NotStarted => 0 | Running => 1 | Failed => 2 | Exited => 3 | Killed => 4 end.
